@@ -465,14 +465,18 @@ Qed.
 
 (* 9afb11d4: on leaving the launch loop, normally or by an exception, the group is written once more iff its image
    differs from the file; either way the file is exact afterwards, memory / script / outcome are untouched *)
-Lemma finish_exact m o m' o' : Forall good (mem m) -> finish cur (m, o) = (m', o') ->
+Lemma write_if_changed_exact m o m' o' : Forall good (mem m) -> write_if_changed (m, o) = (m', o') ->
   mem m' = mem m /\ scr m' = scr m /\ o' = o /\ Exact m' /\ udirty m' = false.
 Proof.
-  intros Hg H. unfold finish in H. cbn [write_on_exit cur] in H.
+  intros Hg H. unfold write_if_changed in H.
   destruct (save_good _ Hg) as [d Hd]. rewrite Hd in H.
   destruct (djobs_eq_dec d (disk m)) as [E|E]; inversion H; subst; unfold Exact; simpl; repeat split; try reflexivity;
     exact Hd.
 Qed.
+
+Lemma finish_exact m o m' o' : Forall good (mem m) -> finish cur (m, o) = (m', o') ->
+  mem m' = mem m /\ scr m' = scr m /\ o' = o /\ Exact m' /\ udirty m' = false.
+Proof. intros Hg H. apply (write_if_changed_exact m o); assumption. Qed.
 
 Lemma launch_core rerun seq repl m0 m' o : WInv m0 ->
   finish cur (launch_loop cur rerun seq repl [] (mem m0) [] (disk m0) (scr m0) (rlog m0) false) = (m', o) ->
@@ -575,22 +579,22 @@ Proof.
   - simpl. rewrite IH2. destruct Hr as (s & e & -> & _). reflexivity.
 Qed.
 
-Lemma get_results_inv m m' o : WInv m -> get_results m = (m', o) ->
-  WInv m' /\ (Exact m -> udirty m' = false -> Exact m').
+(* 65ec16e2: get_results leaves the file exact whenever its refresh pass returned; memory may have been refreshed *)
+Lemma get_results_inv m m' o : WInv m -> get_results cur m = (m', o) ->
+  WInv m' /\ (Exact m -> Exact m').
 Proof.
   intros HW H. unfold get_results in H. destruct (update_statuses m) as [m1 o1] eqn:Eu.
   destruct (update_statuses_weak _ _ _ HW Eu) as (HW1 & _).
   assert (HE1 : Exact m -> Exact m1).
   { intros HS. destruct HW as (Hg & _). destruct (update_statuses_inv _ _ _ Hg HS Eu) as (_ & B & _). exact B. }
   destruct o1.
-  2:{ inversion H; subst. split; [exact HW1|]. intros HS _. exact (HE1 HS). }
+  2:{ inversion H; subst. split; [exact HW1|exact HE1]. }
   destruct (results_loop [] (mem m1) (scr m1) (rlog m1) false) as [[[[l sc] lg] dy] o2] eqn:El.
-  inversion H; subst; clear H. destruct (results_loop_spec _ _ _ _ _ _ _ _ _ _ El) as (p' & -> & HF & Hdy).
-  destruct (Forall2_refreshed_facts _ _ HF) as [Hgood Hsk]. destruct HW1 as (Hg1 & Hk1 & HD1). simpl.
-  split.
-  - split; [exact (Hgood Hg1)|]. split; [|exact HD1]. unfold skeleton in *. simpl. rewrite Hsk. exact Hk1.
-  - intros HS Hd. simpl in Hd. destruct (Hdy Hd) as [_ E]. unfold Exact; simpl.
-    rewrite (save_ext p' (mem m1) E). exact (HE1 HS).
+  cbn [results_write cur] in H. destruct (results_loop_spec _ _ _ _ _ _ _ _ _ _ El) as (p' & -> & HF & _).
+  destruct (Forall2_refreshed_facts _ _ HF) as [Hgood _]. destruct HW1 as (Hg1 & _).
+  destruct (write_if_changed_exact (mkm p' (disk m1) sc lg dy) o2 m' o (Hgood Hg1) H) as (Em & _ & _ & HX & _).
+  assert (Hg' : Forall good (mem m')) by (rewrite Em; exact (Hgood Hg1)).
+  split; [apply Exact_WInv; assumption|intros _; exact HX].
 Qed.
 
 Lemma track_loop_inv : forall fuel m m' o, track_loop fuel m = (m', o) ->
@@ -730,14 +734,12 @@ Proof.
 Qed.
 
 (* the main step lemma, for EVERY operation, EVERY job and EVERY server script: from an exact file, the operation —
-   whether it returns or raises — leaves the file the exact image of memory; the only exception is get_results when
-   it reports (ghost flag) that `job.get_results()` refreshed the status of an UNKNOWN job, which nothing writes *)
+   whether it returns or raises — leaves the file the exact image of memory *)
 Theorem step_exact m o m' out :
-  Forall good (mem m) -> Exact m -> step cur m o = (m', out) ->
-  Forall good (mem m') /\ ((o = OGetResults -> udirty m' = false) -> Exact m').
+  Forall good (mem m) -> Exact m -> step cur m o = (m', out) -> Forall good (mem m') /\ Exact m'.
 Proof.
   intros Hg HS H. pose proof (Exact_WInv _ Hg HS) as HW.
-  destruct (step_weak _ _ _ _ HW H) as (Hg' & _). split; [exact Hg'|]. intros Hq.
+  destruct (step_weak _ _ _ _ HW H) as (Hg' & _). split; [exact Hg'|].
   unfold step in H. set (m1 := mkm (mem m) (disk m) (scr m) (rlog m) false) in *.
   assert (HS1 : Exact m1) by exact HS.
   destruct o as [|s pre kms kbad|seq|seq repl| |k| |].
@@ -757,46 +759,13 @@ Proof.
     destruct (nth_error (mem m) k) as [j|] eqn:En; [|inversion H; subst; exact HS1].
     destruct (sent j) eqn:Es; [|inversion H; subst; exact HS1].
     rewrite (readd_refused m1 k j En Es) in H. inversion H; subst. exact HS1.
-  - apply (get_results_inv m1 _ _ HW H); [exact HS1|apply Hq; reflexivity].
+  - apply (get_results_inv m1 _ _ HW H). exact HS1.
   - apply (track_inv _ _ _ H); assumption.
-Qed.
-
-(* the ghost flag can only be raised by get_results *)
-Theorem flag_only_get_results m o m' out : Forall good (mem m) -> Exact m -> step cur m o = (m', out) ->
-  o <> OGetResults -> udirty m' = false.
-Proof.
-  intros Hg HS H Hne. unfold step in H. set (m1 := mkm (mem m) (disk m) (scr m) (rlog m) false) in *.
-  assert (HS1 : Exact m1) by exact HS.
-  destruct o as [|s pre kms kbad|seq|seq repl| |k| |].
-  - inversion H; reflexivity.
-  - simpl in H.
-    assert (Hadd : forall j sc lg, jwf j -> add_job cur (mkm (mem m) (disk m) sc lg false) j kms kbad = (m', out) -> udirty m' = false).
-    { intros j sc lg Hw Ha. destruct (add_job_any _ _ _ _ _ _ _ _ Hg Hw Ha) as [(_ & _ & E)|(_ & _ & E)]; exact E. }
-    destruct pre.
-    + destruct (pre_exec (job_of_spec s) (scr m) (rlog m)) as [[j sc] lg] eqn:Ep.
-      eapply Hadd; [|exact H]. eapply pre_exec_keeps; [exact Ep|reflexivity].
-    + eapply Hadd; [|exact H]. intros _; discriminate.
-  - destruct (launch_exact _ _ _ m1 _ _ Hg HS1 H) as [(_ & _ & E)|(_ & _ & E)]; exact E.
-  - destruct (launch_exact _ _ _ m1 _ _ Hg HS1 H) as [(_ & _ & E)|(_ & _ & E)]; exact E.
-  - destruct (update_statuses_inv m1 _ _ Hg HS1 H) as (_ & _ & E). exact E.
-  - cbn [mem m1] in H.
-    destruct (nth_error (mem m) k) as [j|] eqn:En; [|inversion H; reflexivity].
-    destruct (sent j) eqn:Es; [|inversion H; reflexivity].
-    rewrite (readd_refused m1 k j En Es) in H. inversion H; reflexivity.
-  - exfalso. apply Hne. reflexivity.
-  - destruct (track_inv _ _ _ H) as (_ & _ & E). exact E.
 Qed.
 
 (* ------------------------------------------------------------------ histories *)
 Lemma init_good sc : Forall good (mem (init sc)) /\ Exact (init sc).
 Proof. split; [constructor|reflexivity]. Qed.
-
-(* get_results never reported an unwritten refresh *)
-Fixpoint quiet (m : mach) (ops : list op) : Prop :=
-  match ops with
-  | [] => True
-  | o :: r => (o = OGetResults -> udirty (fst (step cur m o)) = false) /\ quiet (fst (step cur m o)) r
-  end.
 
 Lemma run_weak : forall ops m, WInv m -> WInv (run cur m ops).
 Proof.
@@ -804,34 +773,24 @@ Proof.
   destruct (step cur m o) as [m' out] eqn:E. simpl. apply IH. eapply step_weak; eassumption.
 Qed.
 
-Lemma run_exact : forall ops m, Forall good (mem m) -> Exact m -> quiet m ops ->
+Lemma run_exact : forall ops m, Forall good (mem m) -> Exact m ->
   Forall good (mem (run cur m ops)) /\ Exact (run cur m ops).
 Proof.
-  induction ops as [|o r IH]; intros m Hg HS Hq; simpl; [split; assumption|].
-  destruct Hq as [Hq1 Hq2]. destruct (step cur m o) as [m' out] eqn:E. simpl in *.
+  induction ops as [|o r IH]; intros m Hg HS; simpl; [split; assumption|].
+  destruct (step cur m o) as [m' out] eqn:E. simpl in *.
   destruct (step_exact m o m' out Hg HS E) as [A B]. apply IH; auto.
 Qed.
 
-Lemma no_results_quiet : forall ops m, Forall (fun o => o <> OGetResults) ops -> quiet m ops.
-Proof.
-  induction ops as [|o r IH]; intros m H; simpl; [exact Logic.I|]. inversion H; subst.
-  split; [intros E; contradiction|apply IH; assumption].
-Qed.
-
-(* T-core 1 (partial only because of the open get_results finding): after every operation of every history, for every
-   server script and whether the operations return or raise, as long as get_results did not report an unwritten
-   refresh, the file is exactly the image of memory and re-opening the group yields the same observable job list *)
-Theorem disk_matches_memory_partial : forall sc ops, quiet (init sc) ops ->
+(* T-core 1, in FULL: after every operation of every history (every public entry point of JobGroup, get_results and
+   track_progress included), for every server script and whether the operations return or raise, the file is exactly
+   the image of memory and re-opening the group by name yields the same observable job list (identifiers, status of
+   sent jobs, metadata, request body unless successful) *)
+Theorem disk_matches_memory : forall sc ops,
   Exact (run cur (init sc) ops) /\ reload_equiv (run cur (init sc) ops).
 Proof.
-  intros sc ops Hq. destruct (init_good sc) as [Hg HS]. destruct (run_exact ops (init sc) Hg HS Hq) as [A B].
+  intros sc ops. destruct (init_good sc) as [Hg HS]. destruct (run_exact ops (init sc) Hg HS) as [A B].
   split; [exact B|apply Exact_reload_equiv; assumption].
 Qed.
-
-(* ... in FULL for every history that does not call get_results *)
-Theorem disk_matches_memory_without_get_results : forall sc ops, Forall (fun o => o <> OGetResults) ops ->
-  Exact (run cur (init sc) ops) /\ reload_equiv (run cur (init sc) ops).
-Proof. intros sc ops H. apply disk_matches_memory_partial. apply no_results_quiet. exact H. Qed.
 
 (* T-core 2: identifiers (and platform metadata) on disk are those of memory after every operation of EVERY history,
    returning or raising: a job accepted before a refusal keeps its identifier on disk; and a re-open always restores
@@ -867,11 +826,11 @@ Proof.
     + intros Hs. eapply reload_body; eassumption.
 Qed.
 
-Theorem request_same_after_reopen : forall sc ops, quiet (init sc) ops ->
+Theorem request_same_after_reopen : forall sc ops,
   let m := run cur (init sc) ops in
   Forall2 (fun j j' => jid j' = jid j /\ (success (jst j) = false -> eff_body j' = eff_body j)) (mem m) (load cur (disk m)).
 Proof.
-  intros sc ops Hq m. destruct (init_good sc) as [Hg HS]. destruct (run_exact ops (init sc) Hg HS Hq) as [A B].
+  intros sc ops m. destruct (init_good sc) as [Hg HS]. destruct (run_exact ops (init sc) Hg HS) as [A B].
   apply request_same_list; assumption.
 Qed.
 
@@ -1165,12 +1124,19 @@ Proof.
     + apply (Htail _ _ _ _ H).
 Qed.
 
-Lemma get_results_pot m m' o i : get_results m = (m', o) -> (pot i (mem m') (scr m') <= pot i (mem m) (scr m))%nat.
+Lemma write_if_changed_keeps r m' o' : write_if_changed r = (m', o') -> mem m' = mem (fst r) /\ scr m' = scr (fst r).
+Proof.
+  unfold write_if_changed. destruct r as [m o]. destruct (save (mem m)) as [d|]; [destruct (djobs_eq_dec d (disk m))|];
+    intros H; inversion H; subst; split; reflexivity.
+Qed.
+
+Lemma get_results_pot m m' o i : get_results cur m = (m', o) -> (pot i (mem m') (scr m') <= pot i (mem m) (scr m))%nat.
 Proof.
   unfold get_results. destruct (update_statuses m) as [m1 o1] eqn:Eu. pose proof (update_statuses_pot _ _ _ i Eu) as H1.
   destruct o1; [|intros H; inversion H; subst; exact H1].
   destruct (results_loop [] (mem m1) (scr m1) (rlog m1) false) as [[[[l sc] lg] dy] o2] eqn:El.
-  intros H; inversion H; subst; simpl. destruct (results_loop_spec _ _ _ _ _ _ _ _ _ _ El) as (p' & -> & HF & _).
+  cbn [results_write cur]. intros H. destruct (write_if_changed_keeps _ _ _ H) as [Em Es]. simpl in Em, Es. rewrite Em, Es.
+  destruct (results_loop_spec _ _ _ _ _ _ _ _ _ _ El) as (p' & -> & HF & _).
   destruct (Forall2_refreshed_facts _ _ HF) as [_ Hsk]. pose proof (results_loop_occ i _ _ _ _ _ _ _ _ _ _ El) as H2.
   assert (E : map jid p' = map jid (mem m1)).
   { assert (E0 : map fst (map (fun j => (jid j, jmeta j)) p') = map fst (map (fun j => (jid j, jmeta j)) (mem m1))) by (rewrite Hsk; reflexivity).
@@ -1195,9 +1161,7 @@ Qed.
 
 Lemma finish_keeps c r m' o' : finish c r = (m', o') -> mem m' = mem (fst r) /\ scr m' = scr (fst r).
 Proof.
-  unfold finish. destruct (write_on_exit c); [|intros ->; split; reflexivity].
-  destruct r as [m o]. destruct (save (mem m)) as [d|]; [destruct (djobs_eq_dec d (disk m))|];
-    intros H; inversion H; subst; split; reflexivity.
+  unfold finish. destruct (write_on_exit c); [apply write_if_changed_keeps|intros ->; split; reflexivity].
 Qed.
 
 (* every operation: the occurrences of an identifier in the group plus the times the server may still issue it never increase *)
@@ -1353,25 +1317,25 @@ Example classic_run_same_writes :
   writes (run cur (init s) h) = writes (run before_9afb11d4 (init s) h) /\ writes (run cur (init s) h) = 6%nat.
 Proof. vm_compute. split; reflexivity. Qed.
 
-(* CURRENT code: the full statement — forall ops sc, reload_equiv (run cur (init sc) ops) — is false because of
-   get_results: after its refresh pass, `job.get_results()` reads `self.status` again for a job whose status is UNKNOWN
-   (maybe_completed but not completed, so still refreshed from the server); the new status is not written *)
-Theorem disk_matches_memory_refuted_get_results :
-  exists ops sc, snd (step cur (run cur (init sc) (removelast ops)) (last ops OReopen)) = Returned /\
-                 ~ reload_equiv (run cur (init sc) ops).
+(* HISTORICAL, about the code before 65ec16e2 (configuration `before_65ec16e2`): after its refresh pass,
+   `job.get_results()` read `self.status` again for a job whose status is UNKNOWN (maybe_completed but not completed, so
+   still refreshed from the server); the new status was not written *)
+Definition reload_equiv_r (m : mach) : Prop := map obs (load before_65ec16e2 (disk m)) = map obs (mem m).
+Theorem disk_matches_memory_refuted_get_results_old_code :
+  exists ops sc, snd (step before_65ec16e2 (run before_65ec16e2 (init sc) (removelast ops)) (last ops OReopen)) = Returned /\
+                 ~ reload_equiv_r (run before_65ec16e2 (init sc) ops).
 Proof.
   exists [OAdd (sp 1) true None false; OGetResults], [AOk 10 WAITING; AOk 11 UNKNOWN; AOk 12 SUCCESS; AOk 0 WAITING].
-  split; [vm_compute; reflexivity|unfold reload_equiv; vm_compute; intros H; discriminate H].
+  split; [vm_compute; reflexivity|unfold reload_equiv_r; vm_compute; intros H; discriminate H].
 Qed.
 
-(* the hypothesis of the partial theorems is satisfiable by a non-trivial history that does call get_results *)
-Example hypotheses_satisfiable :
-  let ops := [OAdd sp_ctx false None false; OAdd sp_unfilled false (Some 5) false; ORun false; OProgress; OGetResults;
-              OReopen; ORun false; OTrack; ORerun false true; OGetResults; ORun true; OReadd 0] in
-  let sc := [AOk 10 WAITING; AFatal; AOk 0 ERROR; AOk 0 WAITING; AOk 11 WAITING; AOk 0 RUNNING; AOk 0 SUCCESS; AOk 12 WAITING;
-             AOk 0 SUCCESS; AOk 0 WAITING; AOk 0 WAITING] in
-  quiet (init sc) ops /\ length (mem (run cur (init sc) ops)) = 2%nat.
-Proof. split; [vm_compute; repeat split; intros _; reflexivity|vm_compute; reflexivity]. Qed.
+(* the same history on the current code: same outcome, exact file, exactly one more write *)
+Example repaired_get_results_witness :
+  let h := [OAdd (sp 1) true None false; OGetResults] in
+  let s := [AOk 10 WAITING; AOk 11 UNKNOWN; AOk 12 SUCCESS; AOk 0 WAITING] in
+  snd (step cur (run cur (init s) (removelast h)) (last h OReopen)) = Returned /\
+  writes (run cur (init s) h) = Datatypes.S (writes (run before_65ec16e2 (init s) h)).
+Proof. vm_compute. split; reflexivity. Qed.
 
 (* ------------------------------------------------------------------ several groups: the store indexed by name *)
 Lemma sget_sset_eq {A} n (v : A) s : sget n (sset n v s) = Some v.
@@ -1403,20 +1367,9 @@ Definition WExact (w : world) : Prop :=
   (forall n l, sget n (handles w) = Some l -> Forall good l /\ exists d, sget n (files w) = Some d /\ save l = Some d) /\
   (forall n d, sget n (files w) = Some d -> exists l, sget n (handles w) = Some l).
 
-(* get_results on the group of name n did not report an unwritten refresh *)
-Definition mquiet_step (w : world) (o : mop) : Prop :=
-  match o with
-  | MOn n OGetResults =>
-      match sget n (handles w), sget n (files w) with
-      | Some l, Some d => udirty (fst (step cur (mkm l d (wscr w) (wlog w) false) OGetResults)) = false
-      | _, _ => True
-      end
-  | _ => True
-  end.
-
-Theorem mstep_exact w o w' out : WExact w -> mquiet_step w o -> mstep cur w o = (w', out) -> WExact w'.
+Theorem mstep_exact w o w' out : WExact w -> mstep cur w o = (w', out) -> WExact w'.
 Proof.
-  intros [HE HF] Hq H. destruct o as [n|n o1|n| |all]; simpl in H.
+  intros [HE HF] H. destruct o as [n|n o1|n| |all]; simpl in H.
   - destruct (sget n (files w)) as [d|] eqn:Ef; inversion H; subst; clear H; split; simpl.
     + intros n0 l Hl. destruct (Z.eq_dec n n0) as [->|Hne].
       * rewrite sget_sset_eq in Hl. inversion Hl; subst. destruct (HF _ _ Ef) as [l0 Hl0].
@@ -1436,9 +1389,7 @@ Proof.
     destruct (sget n (files w)) as [d|] eqn:Ed; [|inversion H; subst; split; assumption].
     destruct (step cur (mkm l d (wscr w) (wlog w) false) o1) as [m' out'] eqn:Es. inversion H; subst; clear H.
     destruct (HE _ _ El) as (Hg & d0 & Hd0 & Hs). rewrite Ed in Hd0. inversion Hd0; subst.
-    destruct (step_exact (mkm l d0 (wscr w) (wlog w) false) o1 m' out Hg Hs Es) as [Hg' HS'].
-    assert (HX : Exact m').
-    { apply HS'. intros ->. unfold mquiet_step in Hq. rewrite El, Ed in Hq. rewrite Es in Hq. exact Hq. }
+    destruct (step_exact (mkm l d0 (wscr w) (wlog w) false) o1 m' out Hg Hs Es) as [Hg' HX].
     split; simpl.
     + intros n0 l0 Hl0. destruct (Z.eq_dec n n0) as [->|Hne].
       * rewrite sget_sset_eq in Hl0. inversion Hl0; subst. split; [exact Hg'|]. exists (disk m'). split; [apply sget_sset_eq|exact HX].
@@ -1480,15 +1431,12 @@ Proof.
   destruct (roundtrip_list _ _ Hg Hs) as [A _]. apply save_some in A. apply save_some in Hs. unfold obs. rewrite A, Hs. reflexivity.
 Qed.
 
-Fixpoint mquiet (w : world) (ops : list mop) : Prop :=
-  match ops with [] => True | o :: r => mquiet_step w o /\ mquiet (fst (mstep cur w o)) r end.
-
 (* T-core 1 for several groups: after every operation of every world history (opens, operations on any live group,
    deletions), every live group object is exact with respect to the file of its own name *)
-Theorem world_disk_matches_memory : forall ops sc, mquiet (winit sc) ops -> WExact (mrun cur (winit sc) ops).
+Theorem world_disk_matches_memory : forall ops sc, WExact (mrun cur (winit sc) ops).
 Proof.
   intros ops sc. assert (H0 : WExact (winit sc)) by (split; simpl; intros; discriminate).
-  revert H0. generalize (winit sc). induction ops as [|o r IH]; intros w HW Hq; simpl; [exact HW|].
-  destruct Hq as [Hq1 Hq2]. destruct (mstep cur w o) as [w' out] eqn:E. simpl in *.
-  apply IH; [eapply mstep_exact; eassumption|exact Hq2].
+  revert H0. generalize (winit sc). induction ops as [|o r IH]; intros w HW; simpl; [exact HW|].
+  destruct (mstep cur w o) as [w' out] eqn:E. simpl in *.
+  apply IH. eapply mstep_exact; eassumption.
 Qed.
